@@ -14,7 +14,7 @@
 From Coq Require Import ZArith List Bool.
 From V.C03 Require Import PyAst.
 Import ListNotations.
-Open Scope Z_scope.
+Local Open Scope Z_scope.
 
 Inductive val := VInt (z : Z) | VBool (b : bool) | VNone | VTuple (l : list val).
 
